@@ -276,7 +276,9 @@ func yamlGenomeObject(g *genetics.Genome) *ioObject {
 	return o
 }
 
-func organismObject(org *genetics.Organism) *ioObject {
+// organismObject: with others, the caller holds the binary form of org while it marshals the others (a caller that
+// collects the forms of several organisms before it sends or stores them); the form it holds must still be org's.
+func organismObject(org *genetics.Organism, others ...*genetics.Organism) *ioObject {
 	rec := Canon(org.Genotype)
 	fit, gen := org.Fitness, org.Generation
 	view := genetics.VerifOrganismView(org)
@@ -286,8 +288,17 @@ func organismObject(org *genetics.Organism) *ioObject {
 		if err != nil {
 			return err
 		}
+		for _, other := range others {
+			if _, err := other.MarshalBinary(); err != nil {
+				return err
+			}
+		}
 		_, err = w.Write(data)
 		return err
+	}
+	if len(others) > 0 {
+		o.desc += fmt.Sprintf(" (its binary form held while %d other organism(s) were marshalled)", len(others))
+		o.hash = Mix(o.hash, uint64(len(others)), 0x77)
 	}
 	o.read = func(r *SimReader) (string, error) {
 		// the binary form travels as a byte slice: the device delivers it (with its faults), the library decodes it
@@ -965,7 +976,16 @@ func scenarioC15(c *RunCtx) {
 				org = elders[t.Draw("pick.elder", len(elders))]
 				c.Count("probe.organism_after_turnover")
 			}
-			c.runObject(organismObject(org), mode, sweep, interesting)
+			var others []*genetics.Organism
+			if t.Chance("heldForm", 1, 2) {
+				for k := t.Range("heldForm.n", 1, 2); k > 0; k-- {
+					if other := w.Pop.Organisms[t.Draw("heldForm.other", len(w.Pop.Organisms))]; len(other.Genotype.Genes) > 0 {
+						others = append(others, other)
+					}
+				}
+				c.Count("probe.organism_form_held")
+			}
+			c.runObject(organismObject(org, others...), mode, sweep, interesting)
 		case 4:
 			bySpecies := t.Chance("bySpecies", 1, 3)
 			ids := map[int]bool{}
